@@ -810,6 +810,9 @@ theorem alt_step (s : State) (op : Op) (rest : List Ev)
       simp only [step, List.cons_append, List.nil_append, alternates]
       exact alt_doClose s rest
     | timeout => simp [step, alternates]
+    | failed => simp [step, alternates]
+  | unregister => exact alt_doClose s rest
+  | stopped => exact alt_closeReq s rest
   | close => exact alt_closeReq s rest
   | write n => simp [step]
   | readable r =>
@@ -901,6 +904,9 @@ theorem cnt_step (s : State) (op : Op) :
           (cnt_skip .error _ (by simp) (by simp)).1, (cnt_skip .error _ (by simp) (by simp)).2]
       omega
     | timeout => simp [step, count]
+    | failed => simp [step, count]
+  | unregister => have := cnt_doClose s; simp only [step]; omega
+  | stopped => have := cnt_closeReq s; simp only [step]; omega
   | close => have := cnt_closeReq s; simp only [step]; omega
   | write n => simp [step, count]
   | readable r =>
